@@ -593,9 +593,17 @@ func (v *fnVC) trCall(x *CallE, env *Env) (T, types.Type) {
 		return v.lit(l.Val, types.Typ[types.Int]), types.Typ[types.Int]
 	case "isNaN":
 		a, _ := v.tr(x.Args[0], env)
+		if !v.P.bv {
+			v.P.add("f64_isNaN", "(declare-fun f64_isNaN (F64) Bool)")
+			return app("f64_isNaN", a), types.Typ[types.Bool]
+		}
 		return app("fp.isNaN", a), types.Typ[types.Bool]
 	case "isInf":
 		a, _ := v.tr(x.Args[0], env)
+		if !v.P.bv {
+			v.P.add("f64_isInf", "(declare-fun f64_isInf (F64) Bool)")
+			return app("f64_isInf", a), types.Typ[types.Bool]
+		}
 		return app("fp.isInfinite", a), types.Typ[types.Bool]
 	case "truncRTZ":
 		a, ty := v.tr(x.Args[0], env)
